@@ -16,36 +16,60 @@ Inductive gs_value :=
 | GsFieldValue               (* the stored value (through Field.__serialize__, the identity for the modelled fields) *)
 | GsUnknownValue.
 
-Record state_policy := { sp_fields : gs_fields; sp_filter : gs_filter; sp_value : gs_value }.
+(* what the state carries besides the fields *)
+Inductive gs_internal :=
+| GsNonesKept                (* state["_none_fields"] = the instance's `_none_fields` (an empty set when it has none) *)
+| GsNoInternal               (* nothing: the fields only *)
+| GsUnknownInternal.
+(* how an instance is rebuilt from the state *)
+Inductive gs_restore :=
+| GsRestoreInstantiated      (* __setstate__: self.__dict__.update(state); `_none_fields` defaults to an empty set;
+                                `_instantiated` = True *)
+| GsRestoreDefault           (* no __setstate__ / __reduce__...: the interpreter's __dict__.update(state) *)
+| GsUnknownRestore.
+
+Record state_policy := { sp_fields : gs_fields; sp_filter : gs_filter; sp_value : gs_value;
+                         sp_internal : gs_internal; sp_restore : gs_restore }.
 
 (* what the code does on the pinned tree *)
 Definition state_policy_today : state_policy :=
-  {| sp_fields := GsAllFields; sp_filter := GsInDict; sp_value := GsFieldValue |}.
+  {| sp_fields := GsAllFields; sp_filter := GsInDict; sp_value := GsFieldValue;
+     sp_internal := GsNonesKept; sp_restore := GsRestoreInstantiated |}.
+
+(* `_none_fields` and `_instantiated` of the rebuilt instance *)
+Definition restored_internals (sp : state_policy) (x : inst) : option (option (list pystr) * bool) :=
+  match sp_internal sp, sp_restore sp with
+  | GsNonesKept, GsRestoreInstantiated => Some (Some (nones_list x), true)
+  | GsNonesKept, GsRestoreDefault => Some (Some (nones_list x), false)
+  | GsNoInternal, GsRestoreInstantiated => Some (Some [], true)
+  | GsNoInternal, GsRestoreDefault => Some (None, false)
+  | _, _ => None
+  end.
 
 Definition is_declared (c : classdef) (k : pystr) : bool :=
   match find_field (c_fields c) k with Some _ => true | None => false end.
 
-(* pickle.loads(pickle.dumps(x)): the default __setstate__ stores the state into a fresh __dict__.
-   None: a __getstate__ the generator could not read. *)
+(* pickle.loads(pickle.dumps(x)): the state is stored into a fresh __dict__.
+   None: a __getstate__ / __setstate__ the generator could not read. *)
 Definition pickle_rt_pol (sp : state_policy) (c : classdef) (x : inst) : option inst :=
-  match sp_fields sp, sp_value sp with
-  | GsAllFields, GsFieldValue =>
+  match sp_fields sp, sp_value sp, restored_internals sp x with
+  | GsAllFields, GsFieldValue, Some (nones, live) =>
       match sp_filter sp with
       | GsInDict =>
           Some {| i_cls := i_cls x;
                   i_attrs := filter (fun p => is_declared c (fst p)) (i_attrs x);
-                  i_nones := None; i_live := false |}
+                  i_nones := nones; i_live := live |}
       | GsTruthy =>
           Some {| i_cls := i_cls x;
                   i_attrs := filter (fun p => is_declared c (fst p) && py_truthy (snd p)) (i_attrs x);
-                  i_nones := None; i_live := false |}
+                  i_nones := nones; i_live := live |}
       | GsNoFilter | GsUnknownFilter => None
       end
-  | _, _ => None
+  | _, _, _ => None
   end.
 
 Definition state_policy_safe (sp : state_policy) : bool :=
-  match sp_fields sp, sp_filter sp, sp_value sp with
-  | GsAllFields, GsInDict, GsFieldValue => true
-  | _, _, _ => false
+  match sp_fields sp, sp_filter sp, sp_value sp, sp_internal sp, sp_restore sp with
+  | GsAllFields, GsInDict, GsFieldValue, GsNonesKept, GsRestoreInstantiated => true
+  | _, _, _, _, _ => false
   end.
